@@ -471,7 +471,13 @@ def oracle_select(case):
     def lexicons_of(spec, lang):
         key = (spec, lang)
         if key not in single:
-            single[key] = _ids(wn.lexicons(lexicon=spec, lang=lang))
+            raw = wn.lexicons(lexicon=spec, lang=lang)
+            single[key] = _ids(raw)
+            # a union lists each selected lexicon once
+            if len(raw) != len(single[key]):
+                out.append(Disc('duplicate-in-selection', 'wn.lexicons', sorted(single[key]),
+                                [f'{x.id}:{x.version}' for x in raw],
+                                note=f'lexicon={spec!r} lang={lang!r}'))
         return single[key]
 
     for n, (spec, lang) in enumerate(case['queries']):
